@@ -1919,22 +1919,14 @@ def run_shapes(ctx, cnfgen, quick):
                 jobs.append((nm, request, 'cnfgen -o name'))
     sub = {}
     for how in ('to_file(name)', 'cnfgen -o name'):
-        sub[how] = os.path.join(tmp, 'names-' + how[:3])
-        for nm, _ in table:
-            os.makedirs(os.path.dirname(os.path.join(sub[how], nm)), exist_ok=True)
+        for request in (None, 'dimacs', 'latex', 'opb'):     # one directory per (way, request): the command lines run in parallel
+            sub[(how, request)] = os.path.join(tmp, 'names-%s-%s' % (how[:3], request))
+            for nm, _ in table:
+                os.makedirs(os.path.dirname(os.path.join(sub[(how, request)], nm)), exist_ok=True)
 
     def do(job):
         nm, request, how = job
-        p = os.path.join(sub[how], ('%s-' % request if request else '') + nm) if '/' not in nm else os.path.join(sub[how], nm + ('' if not request else ''))
-        if '/' in nm and request:
-            d, b = os.path.split(os.path.join(sub[how], nm))
-            d = d + '-' + request if False else d
-            p = os.path.join(d, b)
-        try:
-            if os.path.exists(p):
-                os.unlink(p)
-        except OSError:
-            pass
+        p = os.path.join(sub[(how, request)], nm)
         if how == 'to_file(name)':
             try:
                 F.to_file(p, fileformat=request)
@@ -2094,7 +2086,8 @@ def run_history(ctx, cnfgen, quick):
                     if k != 'description':
                         del F.header[k]
                 elif op == 'transform' and 0 < n <= 60 and len(F) <= 60:
-                    tr = r.choice(['xor', 'shuffle', 'flip'])
+                    # a substitution of rank 2 turns a clause of w literals into 2^w clauses: only on narrow formulas
+                    tr = r.choice(['xor', 'shuffle', 'flip'] if max([len(c) for c in F], default=0) <= 4 else ['shuffle', 'flip'])
                     {'xor': lambda: cnfgen.XorSubstitution(F, 2), 'shuffle': lambda: cnfgen.Shuffle(F), 'flip': lambda: cnfgen.FlipPolarity(F)}[tr]()
                     op += ' ' + tr
                 elif op == 'reread':
